@@ -91,10 +91,23 @@ def callback_campaign(ctx, out, n_hist, n_steps):
         cfg = dict(typed=False, hook=prof["hook"], trees=2)
         r, _ = _hist.setup_runner(ctx, cfg)
         log = []
-        for i in range(n_steps):
+        diverged_at, div_op = None, None
+        for i in range(n_steps + _hist.TAIL_STEPS):
+            if (i >= n_steps and diverged_at is None) or (diverged_at is not None and i - diverged_at > _hist.TAIL_STEPS):
+                break
             ti = 0 if ctx.rng.random() < 0.8 else 1
             x = ctx.rng.random()
-            if x < 0.2 and r.impl.trees[ti].count:
+            if diverged_at is not None and i - diverged_at <= 4:
+                # the operation on which model and implementation parted is repeated (every second time at another place): what
+                # ONE swallowed exception leaves behind may be harmless, what the next call finds need not be
+                op = dict(div_op)
+                if (i - diverged_at) % 2 == 0 and "p" in op and "t" in op:
+                    op["p"] = ctx.rng.choice([[]] + H.paths_of(r.impl.trees[op["t"]]))
+                    op["before"] = None
+                    op.pop("ref", None)
+                    if op.get("via") in ("prepend_sibling", "append_sibling"):
+                        op.pop("via")
+            elif x < 0.2 and r.impl.trees[ti].count:
                 op = sortfail_op(ctx.rng, r.impl, ti, r.bij)
             elif x < 0.4 and r.impl.trees[ti].count >= 2:
                 # in-place filter whose predicate raises at some node (after other nodes were already rejected / accepted)
@@ -116,9 +129,10 @@ def callback_campaign(ctx, out, n_hist, n_steps):
                 tag, text, finding = fs[0]
                 out.fail(dict(cfg=_hist.pub(cfg), log=log), f"[{tag}] {text}", step=s.as_dict(), finding=finding)
                 break
-            if r.dead:
-                out.disagree(dict(cfg=_hist.pub(cfg), log=log), f"step {i}: {s.problems[:2]}", step=s.as_dict())
-                break
+            if r.dead and diverged_at is None:
+                # the search goes on from the diverged state on the implementation alone (see _hist.history_campaign)
+                out.disagree(dict(cfg=_hist.pub(cfg), log=list(log)), f"step {i}: {s.problems[:2]}", step=s.as_dict())
+                diverged_at, div_op = i, H.clean(op)
         if len(log) >= 3:
             out.keys.add(core.hash_str(json.dumps(log, sort_keys=True, default=str)))
 
